@@ -223,7 +223,14 @@ func (m *MethodExpr) Validate() error {
 // hasTag is a helper function that traverses the given attribute and all its
 // bases recursively looking for an attribute with the given tag meta. This
 // recursion is only needed for attributes that have not been finalized yet.
-func hasTag(p *AttributeExpr, tag string) bool {
+func hasTag(p *AttributeExpr, tag string, seen ...map[*AttributeExpr]struct{}) bool {
+	if len(seen) == 0 {
+		seen = append(seen, make(map[*AttributeExpr]struct{}))
+	}
+	if _, ok := seen[0][p]; ok {
+		return false // break infinite recursion on cyclical bases
+	}
+	seen[0][p] = struct{}{}
 	if p.HasTag(tag) {
 		return true
 	}
@@ -232,12 +239,12 @@ func hasTag(p *AttributeExpr, tag string) bool {
 		if !ok {
 			continue
 		}
-		if hasTag(ut.Attribute(), tag) {
+		if hasTag(ut.Attribute(), tag, seen...) {
 			return true
 		}
 	}
 	if ut, ok := p.Type.(UserType); ok {
-		return hasTag(ut.Attribute(), tag)
+		return hasTag(ut.Attribute(), tag, seen...)
 	}
 	return false
 }
@@ -245,7 +252,14 @@ func hasTag(p *AttributeExpr, tag string) bool {
 // hasTag is a helper function that traverses the given attribute and all its
 // bases recursively looking for an attribute with the given tag meta prefix. This
 // recursion is only needed for attributes that have not been finalized yet.
-func hasTagPrefix(p *AttributeExpr, prefix string) bool {
+func hasTagPrefix(p *AttributeExpr, prefix string, seen ...map[*AttributeExpr]struct{}) bool {
+	if len(seen) == 0 {
+		seen = append(seen, make(map[*AttributeExpr]struct{}))
+	}
+	if _, ok := seen[0][p]; ok {
+		return false // break infinite recursion on cyclical bases
+	}
+	seen[0][p] = struct{}{}
 	if p.HasTagPrefix(prefix) {
 		return true
 	}
@@ -254,12 +268,12 @@ func hasTagPrefix(p *AttributeExpr, prefix string) bool {
 		if !ok {
 			continue
 		}
-		if hasTagPrefix(ut.Attribute(), prefix) {
+		if hasTagPrefix(ut.Attribute(), prefix, seen...) {
 			return true
 		}
 	}
 	if ut, ok := p.Type.(UserType); ok {
-		return hasTagPrefix(ut.Attribute(), prefix)
+		return hasTagPrefix(ut.Attribute(), prefix, seen...)
 	}
 	return false
 }
